@@ -7,7 +7,8 @@
 (* reset = the recording process started from an empty store.  One JSON verdict line is printed per      *)
 (* event; an event whose value the specification does not claim is consumed without comparing.           *)
 EXTENDS Expand, IOUtils
-VARIABLE l
+VARIABLES l,       \* index of the event being replayed
+          lost     \* the model no longer knows the store (an unclaimed event since the last reset)
 Tr == ndJsonDeserialize(IOEnv.TRACE)
 
 EnvTrace(e, nm) == LET ev == Tr[e].env
@@ -24,18 +25,21 @@ Matches(ret, post, ev) ==
     /\ post = ev.store
 ObsTrace(op, args, ret, post) ==
     LET ev == Tr[l]
-        ok == ret.claimed => Matches(ret, post, ev)
-    IN PrintT(ToJson([l |-> l, ok |-> ok, claimed |-> ret.claimed, why |-> ret.why, trunc |-> ret.trunc,
-                      alts |-> Cardinality(ret.outs)]))
+        cl == ret.claimed /\ ~lost
+        ok == cl => Matches(ret, post, ev)
+    IN /\ lost' = (lost \/ ~ret.claimed)
+       /\ PrintT(ToJson([l |-> l, ok |-> ok, claimed |-> cl, why |-> IF lost THEN "store-unknown" ELSE ret.why,
+                         trunc |-> ret.trunc, alts |-> Cardinality(ret.outs)]))
 
-TraceInit == Init /\ l = 1
+TraceInit == Init /\ l = 1 /\ lost = FALSE
 TraceNext ==
     \/ /\ phase = "idle" /\ l <= Len(Tr)
        /\ phase' = "scan" /\ envid' = l /\ stack' = <<Frame(Tr[l].input, "top")>>
        /\ LET st == IF Tr[l].reset THEN <<>> ELSE store IN store' = st /\ store0' = st
-       /\ l' = l
+       /\ l' = l /\ lost' = (lost /\ ~Tr[l].reset)
     \/ /\ Scan
        /\ l' = IF phase' = "idle" THEN l + 1 ELSE l
+       /\ IF phase' = "idle" THEN TRUE ELSE lost' = lost
        /\ (phase' = "idle" /\ l + 1 > Len(Tr)) => PrintT("TRACE_DONE")
-TraceSpec == TraceInit /\ [][TraceNext]_<<vars, l>>
+TraceSpec == TraceInit /\ [][TraceNext]_<<vars, l, lost>>
 ================================================================================
